@@ -147,6 +147,9 @@ func init() {
 			checkC01(ctx, &sc)
 			return
 		}
+		if ctx.Batch == 0 {
+			c01Concurrent(ctx)
+		}
 		n := ctx.N(24000, 400000)
 		for i := 0; i < n; i++ {
 			sc := genC01(ctx.Rng, false)
